@@ -83,6 +83,9 @@ type universe struct {
 	profs []*profSpec
 	devs  []*devSpec
 
+	// metricUsed is set once a run has asked an Android metric name.
+	metricUsed bool
+
 	// asked are the questions asked so far (for repeats).
 	asked []*request
 
@@ -100,13 +103,13 @@ var (
 	profBlockedNet   = netip.MustParsePrefix("198.51.100.0/24")
 	profAllowedNet   = netip.MustParsePrefix("198.51.100.128/25")
 	clientAddrs      = []string{
-		"203.0.113.7",    // plain
-		"192.0.2.5",      // globally blocked subnet
-		"192.0.2.200",    // outside the blocked /25
-		"198.51.100.9",   // profile-blocked subnet
-		"198.51.100.200", // inside the profile-allowed /25 of the blocked /24
-		"100.70.0.1",     // ASN 64500 (blocked for some profiles)
-		"100.71.0.1",     // ASN 64501 (allowed for some profiles)
+		"203.0.113.7",                         // plain
+		"192.0.2.5",                           // globally blocked subnet
+		"192.0.2.200",                         // outside the blocked /25
+		"198.51.100.9",                        // profile-blocked subnet
+		"198.51.100.200",                      // inside the profile-allowed /25 of the blocked /24
+		"100.70.0.1",                          // ASN 64500 (blocked for some profiles)
+		"100.71.0.1",                          // ASN 64501 (allowed for some profiles)
 		"10.10.0.1", "10.10.0.2", "10.10.0.3", // linked IPs
 	}
 	dedicatedIPs = []string{"198.18.10.11", "198.18.10.12", "198.18.10.77"}
@@ -815,6 +818,13 @@ func run(s *kernel.Sim, prop, cfg string) {
 		}
 
 		lname := strings.ToLower(r.name)
+		if repl := metricReplacement(lname); repl != "" {
+			// The upstream is asked the common name of such probes.
+			if v, ok := sn.upDev[repl]; ok {
+				sn.upDev[lname] = v
+			}
+			s.Probe("android-metric-name")
+		}
 		gotResp := out != nil && len(out.Msgs) > 0
 		sawUp := len(sn.upstream) > 0
 		s.Logf("req %d: %s -> identify=%q (%s); resp=%v rcode=%s upstream=%v as %q qlog=%d bill=%v err=%v",
@@ -920,6 +930,20 @@ func serve(w *world.World, r *request, id uint16) (out *world.Writer, err error)
 	})
 }
 
+// metricReplacement returns the name the resolver asks upstream instead of an
+// Android private-DNS probe name (doc: the random part is replaced by zeros),
+// or "".
+func metricReplacement(lname string) (repl string) {
+	switch {
+	case strings.HasSuffix(lname, "-dnsotls-ds.metric.gstatic.com."):
+		return "00000000-dnsotls-ds.metric.gstatic.com."
+	case strings.HasSuffix(lname, "-dnsohttps-ds.metric.gstatic.com."):
+		return "000000-dnsohttps-ds.metric.gstatic.com."
+	}
+
+	return ""
+}
+
 func genRequest(t *kernel.Tape, u *universe, servers map[string]*agd.Server, kinds []string, i int, prop string) (r *request) {
 	r = &request{}
 	r.srvKind = kernel.Pick(t, kinds, "server")
@@ -933,7 +957,21 @@ func genRequest(t *kernel.Tape, u *universe, servers map[string]*agd.Server, kin
 	// What the upstream says about the name: it exists, does not exist, or
 	// cannot be resolved.
 	base = kernel.Pick(t, []string{"", "", "", "nx-", "sf-"}, "upstream-rcode") + base
-	switch t.Choose(10, "name-kind") {
+	switch t.Choose(11, "name-kind") {
+	case 10:
+		// A connectivity probe of Android's private DNS: the resolver asks
+		// the upstream for one common name instead (once per run here, so
+		// that the common answer is not in the cache yet).
+		if u.metricUsed {
+			r.name = base + ".example."
+
+			break
+		}
+		u.metricUsed = true
+		r.name = fmt.Sprintf("%08x-dnsotls-ds.metric.gstatic.com.", 0xa11d0000+i)
+		if t.Chance(1, 2, "metric-doh") {
+			r.name = fmt.Sprintf("%06x-dnsohttps-ds.metric.gstatic.com.", 0xa10000+i)
+		}
 	case 0:
 		r.name, r.behaviour = "reqblock-"+base+".example.", "reqblock"
 	case 1:
